@@ -548,7 +548,7 @@ def run(ctx):
             return seen
 
         empties = [c for c in b.calls() if c.name == "is_empty" and "PrefixedStringBuf" in (c.def_ or "")]
-        n_empt += len(empties)
+        n_empt += len(empties) + sum(1 for cl_ in F.closures_of(b) for c in cl_.calls() if c.name == "is_empty" and "PrefixedStringBuf" in (c.def_ or ""))
         e_global, e_set = set(), set()
         for c in empties:
             o = pr.operand(c.args[0])
